@@ -101,6 +101,18 @@ def run(repo: Repo, tier: str) -> Report:
     a_def = [d for d in sc.scalars[A] if "gammafit[" in d.rhs.key()][0]
     ob("R-FORMULA", "gammastd", "the fit receives exactly the calibration slice x[cal_start:cal_stop]",
        a_def.rhs.key() == f"item0[{fit_arg}]", f"fit argument: {a_def.rhs.key()}", a_def.stmt)
+    # the fit is used unless the caller overrides BOTH parameters: the overrides default to 0 and the two drivers do not pass them
+    gnode = spi.k["gammastd"].node
+    gpar = [a_.arg for a_ in gnode.args.args]
+    gdef = dict(zip(gpar[len(gpar) - len(gnode.args.defaults):], [ast.unparse(d_) for d_ in gnode.args.defaults]))
+    over = gpar[4:6]
+    ob("R-FORMULA", "gammastd", "the parameter overrides default to 0 (= fit from the calibration sample)", len(over) == 2 and all(gdef.get(o_) in ("0", "0.0") for o_ in over),
+       f"defaults {gdef}", gnode.args)
+    for drv in ("gammastd_yxt", "gammastd_grp"):
+        calls = [c for c in ast.walk(spi.k[drv].node) if isinstance(c, ast.Call) and ast.unparse(c.func) == "gammastd"]
+        okc = len(calls) == 1 and len(calls[0].args) <= 4 and not any(k_.arg in over for k_ in calls[0].keywords)
+        ob("R-BIND", drv, "the driver lets gammastd fit the distribution (no alpha/beta override is passed)", okc,
+           f"calls: {[ast.unparse(c) for c in calls]}", calls[0] if calls else f"{drv}: gammastd(...)")
     n_fit = sum(1 for c in ast.walk(spi.k["gammastd"].node) if isinstance(c, ast.Call) and ast.unparse(c.func) == "gammafit")
     ob("R-FORMULA", "gammastd", "gammafit is called once", n_fit == 1, f"{n_fit} calls", "gammafit(...)")
 
@@ -200,6 +212,12 @@ def run(repo: Repo, tier: str) -> Report:
         sel_ok = (f"ne0[-1*{dnd} + {cell}]" in sca.guards) or sca.idx_key == f"ne0[-1*{dnd} + {buf}]"
         ob("R-FORMULA", drv, "exactly the non-nodata cells are multiplied by 1000", okv and sel_ok,
            f"scaled value {sca.rhs.key()} at index {sca.idx_key} under {list(sca.guards)[-1:]}", sca.stmt)
+        # the scaling runs whenever the pixel has a valid index at all: the only condition it may sit under (besides the per-cell nodata test) is
+        # "some cell of the result is not nodata"
+        anyv = {f"any[ne0[-1*{dnd} + {buf}]]", f"gt0[sum[ne0[-1*{dnd} + {buf}]]]"}
+        extra = [g_ for g_ in sca.guards if g_ not in anyv and g_ != f"ne0[-1*{dnd} + {cell}]" and not g_.startswith("any[ne0[-1*") and not g_.startswith("gt0[sum[ne0[-1*")]
+        ob("R-FORMULA", drv, "every pixel with a valid index is scaled (the block is conditional on `some cell != nodata` at most)", not extra,
+           f"scaling runs under {list(sca.guards)}: the extra condition(s) {extra} leave the raw (unscaled) index in some pixels", sca.stmt)
         src = d.allocs.get(buf)
         ob("R-FORMULA", drv, "the scaled buffer is the result of gammastd on the pixel with the caller's window",
            src is not None and ast.unparse(src.func) == "gammastd" and len(src.args) == 4 and ast.unparse(src.args[1]) == dnd,
